@@ -1,24 +1,25 @@
-// C19 wrapper (2/3): fmt() through format() into a bounded buffer sink
+// C19 wrapper (2/3): fmt() through format() into a streaming sink
 #include <stdint.h>
 #include <stddef.h>
 #include <frg/formatting.hpp>
 #define NI __attribute__((noinline))
-// bounded buffer sink: bytes beyond the capacity are counted, not stored (the harness asserts the count)
+// streaming sink: every appended byte goes to the harness, which compares it on the spot with the byte the oracle expects there
+extern "C" void c19_put(int c);
 struct buf_sink {
-	char *p; size_t n, cap;
-	void append(char c) { if(n < cap) p[n] = c; n++; }
+	size_t n;
+	void append(char c) { c19_put((unsigned char)c); n++; }
 	void append(const char *s) { while(*s) append(*s++); }
 };
 extern "C" {
 // fmt() with the argument tuple (int, unsigned long, char)
-NI int c19_fmt(char *out, size_t cap, const char *f, size_t len, int a, unsigned long b, char c) {
-	buf_sink s{out, 0, cap};
+NI int c19_fmt(const char *f, size_t len, int a, unsigned long b, char c) {
+	buf_sink s{0};
 	frg::format(frg::fmt(frg::string_view{f, len}, a, b, c), s);
 	return (int)s.n;
 }
 // fmt() without arguments (every spec is out of range)
-NI int c19_fmt0(char *out, size_t cap, const char *f, size_t len) {
-	buf_sink s{out, 0, cap};
+NI int c19_fmt0(const char *f, size_t len) {
+	buf_sink s{0};
 	frg::format(frg::fmt(frg::string_view{f, len}), s);
 	return (int)s.n;
 }
